@@ -43,9 +43,11 @@ package oci
 //@   loop 0 invariant [snapshot] resolvers != nil && resolvers != s.tagResolver.index && (forall r string :: (r in resolvers) == old(r in s.tagResolver.index) && (r in resolvers ==> resolvers[r] == old(s.tagResolver.index[r])))
 //@   loop 0 invariant [C08,C09:untag-only-target] forall r string :: (r in s.tagResolver.index) == (old(r in s.tagResolver.index) && !(r in $visited && sameContent(old(s.tagResolver.index[r]), target)))
 //@   loop 0 invariant [values] forall r string :: r in s.tagResolver.index ==> s.tagResolver.index[r] == old(s.tagResolver.index[r])
+//@   loop 0 invariant [C08,C10:flag-records-every-removal] !untagged ==> (forall r string :: (r in s.tagResolver.index) == old(r in s.tagResolver.index))
 //@   loop 0 invariant [graph-kept] (forall k descriptor.Descriptor :: (k in s.graph.nodes) == old(k in s.graph.nodes))
 //@   loop 0 invariant [counts] blobCount(s.storage) == old(blobCount(s.storage)) && indexVersion(s) == old(indexVersion(s))
 //@   call (*Storage).Delete requires [C10:index-saved-before-blob-removed] !(untagged && s.AutoSaveIndex) || indexVersion(s) > old(indexVersion(s))
+//@   call (*Storage).Delete requires [C08,C10:index-saved-whenever-a-reference-was-removed] !s.AutoSaveIndex || (forall r string :: (r in s.tagResolver.index) == old(r in s.tagResolver.index)) || indexVersion(s) > old(indexVersion(s))
 //@   call (*Storage).Delete requires [C07,C10:graph-entry-removed-before-blob] !(K(target) in s.graph.nodes)
 //@   ensures [C08,C09:untag-only-target] forall r string :: (r in s.tagResolver.index) == (old(r in s.tagResolver.index) && !sameContent(old(s.tagResolver.index[r]), target))
 //@   ensures [C08,C09:other-tags-kept] forall r string :: r in s.tagResolver.index ==> s.tagResolver.index[r] == old(s.tagResolver.index[r])
